@@ -788,6 +788,49 @@ pub fn eval_c16(input: &(State, Vec<DVec3>)) -> Eval {
             }
         }
     }
+    // ... and just inside the safety ball *in the direction of the cell's farthest vertices* (the only place where a
+    // generator just inside the ball still cuts the cell): at r (1 - 2^-10) and r (1 - 2^-12) the cut-off corner has a
+    // face of about 1e-6 / 6e-8 of the cell's cross-section, far above the negligible threshold
+    // (not in the box of 2^-40 length units: a generator 1e-3 of a cell away from another one is 1e-15 length units
+    // away there - the regime of the known finding R11, listed under C05)
+    for i in if t.l < 1e-6 { vec![] } else if n > 16 { vec![0usize] } else { (0..n).collect::<Vec<usize>>() } {
+        let g = st.gen_loc(i);
+        let dmax = oc[i].max_vertex_dist_active;
+        let mut far_dirs: Vec<DVec3> = vec![];
+        for v in &oc[i].verts {
+            let mut dv = *v - g;
+            for ax in dim..3 {
+                set_comp(&mut dv, ax, 0.);
+            }
+            if dv.length() >= dmax * (1. - 1e-9) && dmax > 0. {
+                let u = dv / dv.length();
+                if !far_dirs.iter().any(|x| x.distance(u) < 1e-6) {
+                    far_dirs.push(u);
+                }
+            }
+        }
+        for (di, d) in far_dirs.iter().take(4).enumerate() {
+            for (tag, f) in [("vin10", 1. - 1. / 1024.), ("vin12", 1. - 1. / 4096.)] {
+                let mut p = g + *d * (radii[i] * f);
+                if st.periodic {
+                    for ax in 0..dim {
+                        let mut c = comp(p, ax);
+                        while c >= comp(a, ax) + comp(w, ax) {
+                            c -= comp(w, ax);
+                        }
+                        while c < comp(a, ax) {
+                            c += comp(w, ax);
+                        }
+                        set_comp(&mut p, ax, c);
+                    }
+                }
+                let inside = (0..dim).all(|ax| comp(p, ax) > comp(a, ax) && comp(p, ax) < comp(a, ax) + comp(w, ax));
+                if inside && all_finite(p) {
+                    cands.push((format!("ring{}-v{}-{}", i, di, tag), p));
+                }
+            }
+        }
+    }
     for (name, p) in cands {
         // distinct from existing generators (modulo the period)
         let dmin = (0..n).map(|i| min_image_dist(st, p, st.gen_loc(i))).fold(f64::INFINITY, f64::min);
@@ -821,6 +864,23 @@ pub fn eval_c16(input: &(State, Vec<DVec3>)) -> Eval {
         let vc2 = i2.compute_cell_integrals::<VolumeCentroidIntegral>();
         let recs2 = i2.compute_face_integrals::<FaceRec>();
         let lf2 = lib_cell_faces(&st2, &recs2, n + 1);
+        // the added generator and the old cells see each other: every face of non-negligible area has its reverse (a cell
+        // that stopped looking for neighbours too early misses the face its new neighbour has towards it)
+        if name.contains("-vin") || name.ends_with("-in") {
+            let rtol = t.neg_area + 64. * t.pos * t.l.powi((dim as i32 - 2).max(0));
+            for j in 0..=n {
+                for (k, l) in &lf2[j].by_key {
+                    if let FaceKey::Ngb(o, sh) = k {
+                        if l[0].area > 4. * rtol {
+                            let back = FaceKey::Ngb(j, [-sh[0], -sh[1], -sh[2]]);
+                            if !lf2[*o].by_key.contains_key(&back) {
+                                e.issue("added-generator-face-not-reciprocal", &tcase, format!("cell {} has a face of area {:e} towards {} but cell {} has none towards {}", j, l[0].area, k.describe(), o, back.describe()), replay_text(check, &st2, &[]));
+                            }
+                        }
+                    }
+                }
+            }
+        }
         for i in 0..n {
             let vtol = 64. * t.pos * t.l.powi(dim as i32 - 1) + 1e-9 * vc1[i].volume.abs();
             // monotonicity: no cell grows
